@@ -202,7 +202,7 @@ def replay(case, rec):
 
 
 def run(rec, rng, tier, shard, nshards):
-    n = 1200 if tier == 'quick' else 20000
+    n = 3000 if tier == 'quick' else 30000
     for i in range(n):
         case = gen_case(rng)
         try:
